@@ -1786,3 +1786,173 @@ func init() {
 	extend("C27", "R27g (same rule as C28 R28d; three independent seeded changes against C27 and C13 edited the pooled-signature comparison, which only C28 anchored): a block transaction skips signature verification only when the pooled copy's whole signature — every field, compared between the two different transactions — is identical.", sigCoverageRule("R27g"))
 	extend("C13", "R13h (same rule as C28 R28d): whether a block is accepted must not depend on what the local mempool happens to hold.", sigCoverageRule("R13h"))
 }
+
+// layerOrder returns the canonical order in which fn puts database layers into
+// the list handed to the merged iterator: the arguments of successive
+// `list = append(list, X)` statements, or — when the appends sit in a loop over
+// a composite literal — the elements of that literal.
+func layerOrder(f *core.FuncInfo) []string {
+	c := f.Ctx()
+	var seq []string
+	ast.Inspect(f.Body(), func(x ast.Node) bool {
+		switch s := x.(type) {
+		case *ast.RangeStmt:
+			if cl, ok := ast.Unparen(s.X).(*ast.CompositeLit); ok {
+				appends := false
+				ast.Inspect(s.Body, func(y ast.Node) bool {
+					if call, ok := y.(*ast.CallExpr); ok && core.IsBuiltinCall(c.Info, call, "append") {
+						appends = true
+					}
+					return true
+				})
+				if appends {
+					for _, el := range cl.Elts {
+						seq = append(seq, core.CanonExpr(c, el))
+					}
+					return false
+				}
+			}
+		case *ast.AssignStmt:
+			if len(s.Rhs) == 1 {
+				if call, ok := s.Rhs[0].(*ast.CallExpr); ok && core.IsBuiltinCall(c.Info, call, "append") && len(call.Args) == 2 {
+					seq = append(seq, core.CanonExpr(c, call.Args[1]))
+				}
+			}
+		}
+		return true
+	})
+	return seq
+}
+
+func createdHere(c *core.Ctx, base *ast.Ident) bool {
+	for _, d := range c.DefsOf(c.Info.ObjectOf(base)) {
+		if d.Rhs == nil {
+			continue
+		}
+		switch rx := ast.Unparen(d.Rhs).(type) {
+		case *ast.CompositeLit:
+			return true
+		case *ast.UnaryExpr:
+			if _, isLit := ast.Unparen(rx.X).(*ast.CompositeLit); isLit {
+				return true
+			}
+		case *ast.CallExpr:
+			if fn := core.Callee(c.Info, rx); fn != nil && fn.Name() == "CreateRow" {
+				return true
+			}
+		}
+	}
+	return false
+}
+
+func init() {
+	layers := func(id string) core.Rule {
+		return rule(id, "listing and counting merge the layers in the same priority order: open transaction, committed overlay, base", 2, func(r *Run) {
+			want := "$recv.txcache > $recv.cache > $recv.maindb"
+			for _, m := range []string{"List", "PrefixCount"} {
+				f := r.Fn(ldb + m)
+				if f == nil {
+					continue
+				}
+				got := strings.Join(layerOrder(f), " > ")
+				label := fmt.Sprintf("%s builds the merged view as %s", f.Name, want)
+				if got == want {
+					r.OK(label, r.W.Pos(f.Node().Pos()), got)
+				} else {
+					r.Fail(label, r.W.Pos(f.Node().Pos()), "layers are merged as ["+got+"]: an entry of the open transaction is shadowed by the committed overlay (or the base) in this view only")
+				}
+			}
+		})
+	}
+	extend("C08", "R08f (added after a seeded change was missed; the edit is in LocalDB.PrefixCount, which only C07 anchored): listing and counting see the layers in the same priority order.", layers("R08f"))
+	extend("C07", "R07i (R07c restated so that the loop-over-a-literal form of building the layer list is understood as well).", layers("R07i"))
+
+	extend("C06", "R06g (added after a seeded change was missed): the Badger iterator's engine-side prefix restriction may only be derived from start when the caller asked for a prefix scan (no end bound) — with an explicit end bound the range reaches beyond the start prefix.",
+		rule("R06g", "Badger: an engine prefix restriction only for prefix scans", 1, func(r *Run) {
+			fn := "common/db.(*GoBadgerDB).Iterator"
+			f := r.Fn(fn)
+			if f == nil {
+				return
+			}
+			c := f.Ctx()
+			isPrefixStore := func(c *core.Ctx, n ast.Node) bool {
+				as, ok := n.(*ast.AssignStmt)
+				if !ok {
+					return false
+				}
+				for _, l := range as.Lhs {
+					if sel, ok := ast.Unparen(l).(*ast.SelectorExpr); ok && sel.Sel.Name == "Prefix" {
+						return true
+					}
+				}
+				return false
+			}
+			n := 0
+			ast.Inspect(f.Body(), func(x ast.Node) bool {
+				if isPrefixStore(c, x) {
+					n++
+				}
+				if kv, ok := x.(*ast.KeyValueExpr); ok {
+					if id, ok := kv.Key.(*ast.Ident); ok && id.Name == "Prefix" {
+						n++
+						r.Fail(f.Name+": engine iterator options carry a Prefix set in a literal", r.W.Pos(kv.Pos()), "a Prefix option fixed at construction applies to explicit ranges as well")
+					}
+				}
+				return true
+			})
+			if n == 0 {
+				r.OK(f.Name+": no engine-side prefix restriction", r.W.Pos(f.Node().Pos()), "IteratorOptions.Prefix is never set: the range filter alone bounds the scan")
+				return
+			}
+			endNil := core.RelGuard("prefix-scan", core.IsObj("param:1"), token.EQL, isNilLit)
+			core.Dominated{Fn: fn, Spec: &core.FlowSpec{Conds: []core.CondGuard{endNil}}, Sink: core.SinkPred{Label: "store to IteratorOptions.Prefix", Match: func(fl *core.Flow, nd *core.GNode) bool {
+				return nd.Ast != nil && isPrefixStore(fl.C, nd.Ast)
+			}}, Need: []Fact{"prefix-scan"}, Min: 1}.Check(r)
+		}),
+	)
+
+	extend("C10", "R10g (added after a seeded change was missed): the 'old' value of a buffered row — what the index diff at save time is computed against — is fixed when the row object is created from the persisted row and is never re-assigned on a row that is already in the buffer.",
+		rule("R10g", "a buffered row's persisted 'old' value is never re-assigned", 1, func(r *Run) {
+			pkg := r.W.Pkg("common/db/table")
+			if pkg == nil {
+				r.Unresolved("package common/db/table")
+				return
+			}
+			stores, lits := 0, 0
+			for _, f := range r.W.AllFuncs(pkg) {
+				if f.Lit != nil {
+					continue
+				}
+				c := f.Ctx()
+				ast.Inspect(f.Body(), func(x ast.Node) bool {
+					switch s := x.(type) {
+					case *ast.KeyValueExpr:
+						if id, ok := s.Key.(*ast.Ident); ok && id.Name == "old" {
+							lits++
+						}
+					case *ast.AssignStmt:
+						for _, l := range s.Lhs {
+							sel, ok := ast.Unparen(l).(*ast.SelectorExpr)
+							if !ok || sel.Sel.Name != "old" || !core.IsObj("common/db/table.Row.old")(c, sel) {
+								continue
+							}
+							stores++
+							label := fmt.Sprintf("%s: `%s` sets 'old' on a row created in this function", f.Name, core.ExprStr(s))
+							if base, ok := ast.Unparen(sel.X).(*ast.Ident); ok && createdHere(c, base) {
+								r.OK(label, r.W.Pos(s.Pos()), "fresh row")
+							} else {
+								r.Fail(label, r.W.Pos(s.Pos()), "the row is one that already sits in the buffer: its 'old' must stay the persisted value, otherwise the index entries of the persisted row are not deleted at save time")
+							}
+						}
+					}
+					return true
+				})
+			}
+			if lits+stores < 2 {
+				r.Fail("common/db/table: places that give a row its 'old' value", "common/db/table/", fmt.Sprintf("expected ≥2 (Update, Replace), found %d", lits+stores))
+			} else {
+				r.OK("common/db/table: places that give a row its 'old' value", "common/db/table/", fmt.Sprintf("%d at construction, %d assignment(s) on fresh rows", lits, stores))
+			}
+		}),
+	)
+}
